@@ -1,4 +1,5 @@
 """C10 - snapshots are accepted only for recent, newer versions and never move backwards."""
+from rules import http as H
 from rules import shared as S
 from tcss import world as WD
 LEVEL = "other"
@@ -15,4 +16,5 @@ def run(rep, W, ctx):
     S.c10(rep, W)
     S.s_txn3(rep, W, body)
     S.c18_ops(rep, W)
+    H.handler_args(rep, W)
     S.s_wmc(rep, W, only=[WD.tm("set_snapshot")])
